@@ -1,4 +1,5 @@
 import PsV.Proofs.Glam1d
+import PsV.Proofs.GlamNd
 /-!
 # C09 (continued) — the GLAM assembly identity
 
@@ -17,8 +18,8 @@ variable {α : Type} [Field α] [LinearOrder α] [IsStrictOrderedRing α] [A : A
 (`box`, `slicemultiply`, doubling + reordering of the axes of `F`, `flatten_ndarray_to_sparse`, `divided_diffs`,
 `calc_penalty`, `add_penalty_term`) is exactly the normal-equation system `(specM, specR)` of the stated objective,
 for every smoothing strength (zero included) and penalty order.
-The n-dimensional identity `glam_eq_kron` (same statement for `dims`, `coords` of any length with row-major strides) is
-not proved; `psvdriver C09` checks it exactly (entry by entry, in `Rat`) on every generated instance — a test. -/
+The n-dimensional identity is `glam_eq_kron_C09` below (this one-dimensional statement is kept; it is the case
+`dims = [d]` of the general one up to the spelling of the hypotheses). -/
 theorem glam_eq_kron_1d_C09 (d : Dim α) (xs : List α) (data : List (List Nat × α)) (weights : List α) (lam : α)
     (p : Nat) (hax : d.naxes = d.nknots - d.order - 1) (hs : d.stride = 1)
     (hdata : ∀ e ∈ data, ∃ g < xs.length, e.1 = [g]) :
@@ -39,5 +40,114 @@ example : (∀ e ∈ ([([0], (1:Rat)), ([1], 1), ([2], 5)] : List (List Nat × R
   · exact ⟨1, by decide, rfl⟩
   · exact ⟨2, by decide, rfl⟩
 
+/-- **The GLAM identity, any number of dimensions** (supersedes the one-dimensional theorem above and the per-instance
+test `glamM=1 glamR=1` of the driver, which is kept as a regression check of the model against the code).
+For every list of dimensions with C-ordered strides (`stride_d = Π_{k>d} naxes_k`) and `naxes = nknots − order − 1`, one
+coordinate vector per dimension, data on the grid (`IdxIn`: index tuple of the right length, every index below the length
+of its coordinate vector), any weights, any smoothing / penalty-order arguments (a single entry or one per dimension,
+selected by `pick` as fit.h does), the system that the model of `glamfit_complex` / `fit.h` hands to the Cholesky solve —
+`bsplinebasis` per dimension, `box`, the chain of `slicemultiply` calls on `F` and `R`, doubling the dimensions of `F`,
+even axes first, `flatten_ndarray_to_sparse`, `divided_diffs`, `calc_penalty` with its Kronecker chain, `add_penalty_term`
+skipping zero scales — is entry for entry the normal-equation system of the stated objective,
+`fitmat = BᵀWB + Σ_d λ_d K_dᵀK_d = specM P`, `rhs = BᵀWz = specR P`, with `B[r,i] = Π_d B_d(i_d, x_{r,d})` the Kronecker
+(row-tensor) design matrix that the code never forms.  The proof is by induction over the dimensions
+(`glamConvolve_get`: loop invariant of the convolution; `flattenNd_F_get_nd`: the mixed-radix reshape;
+`penaltyMat_get_nd`: the Kronecker chain).  `P` and the arguments of `glamSystem` are built exactly as `psvdriver C09`
+builds them. -/
+theorem glam_eq_kron_C09 (dims : List (Dim α)) (coords : List (List α)) (data : List (List Nat × α))
+    (weights : List α) (smoothing : List α) (porders : List Nat)
+    (hne : dims ≠ []) (hs : StridesRowMajor dims) (hax : ∀ d ∈ dims, d.naxes = d.nknots - d.order - 1)
+    (hlen : coords.length = dims.length)
+    (hdata : ∀ e ∈ data, IdxIn e.1 (coords.map List.length)) :
+    let P : FitProblem α :=
+      ⟨dims, coords, ((data.zip weights).map fun (e, w) => ⟨e.1, e.2, w⟩).toArray,
+       (List.range dims.length).map (fun k => pick smoothing k 0),
+       (List.range dims.length).map (fun k => pick porders k 0)⟩
+    ∃ S, glamSystem dims coords (coords.map List.length) data weights smoothing porders = some S ∧
+      (∀ i < P.ncoef, ∀ j < P.ncoef, S.fitmat.get i j = (specM P).get i j) ∧
+      (∀ i < P.ncoef, S.rhs.getD i 0 = (specR P).getD i 0) :=
+  glam_eq_kron_nd dims coords data weights smoothing porders hne hs hax hlen hdata
+
+/-- **End to end (exact arithmetic).**  Under the hypotheses of the GLAM identity, if the normal matrix is positive
+definite then every exact solution `c` of the system assembled by the model of the code, `fitmat · c = rhs` — what the
+Cholesky solve computes up to rounding — is the unique minimiser of the penalised weighted least-squares objective stated
+by the property. -/
+theorem glam_solution_is_unique_minimiser (dims : List (Dim α)) (coords : List (List α))
+    (data : List (List Nat × α)) (weights : List α) (smoothing : List α) (porders : List Nat)
+    (hne : dims ≠ []) (hs : StridesRowMajor dims) (hax : ∀ d ∈ dims, d.naxes = d.nknots - d.order - 1)
+    (hlen : coords.length = dims.length)
+    (hdata : ∀ e ∈ data, IdxIn e.1 (coords.map List.length)) :
+    let P : FitProblem α :=
+      ⟨dims, coords, ((data.zip weights).map fun (e, w) => ⟨e.1, e.2, w⟩).toArray,
+       (List.range dims.length).map (fun k => pick smoothing k 0),
+       (List.range dims.length).map (fun k => pick porders k 0)⟩
+    PosDef P.ncoef (Mf P) →
+    ∀ S, glamSystem dims coords (coords.map List.length) data weights smoothing porders = some S →
+    ∀ c : Nat → α, (∀ i < P.ncoef, mulVec P.ncoef (fun i j => S.fitmat.get i j) c i = S.rhs.getD i 0) →
+      (∀ c' : Nat → α, objective P c ≤ objective P c')
+        ∧ ∀ c' : Nat → α, objective P c' ≤ objective P c → ∀ i < P.ncoef, c' i = c i := by
+  intro P hP S hS c hc
+  obtain ⟨S', hS', hM, hr⟩ := glam_eq_kron_nd dims coords data weights smoothing porders hne hs hax hlen hdata
+  have hSS : S' = S := Option.some.inj (hS'.symm.trans hS)
+  subst hSS
+  have hN : ∀ i < P.ncoef, mulVec P.ncoef (Mf P) c i = rf P i := by
+    intro i hi
+    have h1 : mulVec P.ncoef (fun i j => S'.fitmat.get i j) c i = mulVec P.ncoef (Mf P) c i :=
+      mulVec_congr_mat P.ncoef c i hi (fun a ha b hb => hM a ha b hb)
+    rw [← h1, hc i hi]
+    exact hr i hi
+  exact ⟨((C09_fit_is_minimiser P c hP).1).1 hN, (C09_fit_is_minimiser P c hP).2 hN⟩
+
 end
+
+/-- a two-dimensional example: orders 1 × 1, four knots each, 2 × 2 coefficients with strides (2, 1) -/
+def exDims2 : List (Dim Rat) := [⟨1, 4, 2, 2, fun i => (i : Rat)⟩, ⟨1, 4, 2, 1, fun i => (i : Rat)⟩]
+
+/-- non-vacuity: a concrete two-dimensional problem (3 × 2 grid, four data one of which has weight 0, a single smoothing
+strength and a single penalty order for both dimensions) satisfies the hypotheses … -/
+example : exDims2 ≠ [] ∧ StridesRowMajor exDims2 ∧ (∀ d ∈ exDims2, d.naxes = d.nknots - d.order - 1)
+    ∧ ([[1, 3/2, 2], [1, 2]] : List (List Rat)).length = exDims2.length
+    ∧ ∀ e ∈ ([([0, 0], (1:Rat)), ([2, 1], 1), ([1, 0], 5), ([1, 1], 2)] : List (List Nat × Rat)),
+        IdxIn e.1 (([[1, 3/2, 2], [1, 2]] : List (List Rat)).map List.length) := by
+  refine ⟨by simp [exDims2], ⟨rfl, rfl⟩, ?_, rfl, ?_⟩
+  · intro d hd
+    simp only [exDims2, List.mem_cons, List.not_mem_nil, or_false] at hd
+    rcases hd with rfl | rfl <;> rfl
+  · intro e he
+    simp only [List.mem_cons, List.not_mem_nil, or_false] at he
+    rcases he with rfl | rfl | rfl | rfl <;>
+      exact ⟨rfl, fun k hk => by
+        have : k = 0 ∨ k = 1 := by simp at hk; omega
+        rcases this with rfl | rfl <;> simp⟩
+
+/-- … so the model assembles a 4 × 4 system (and it is the specification's). -/
+example : ∃ S, glamSystem exDims2 [[1, 3/2, 2], [1, 2]] [3, 2]
+      [([0, 0], 1), ([2, 1], 1), ([1, 0], 5), ([1, 1], 2)] [1, 1, 0, 2] [1] [1] = some S ∧
+    S.fitmat.get 0 0 = (specM (⟨exDims2, [[1, 3/2, 2], [1, 2]],
+      #[⟨[0, 0], 1, 1⟩, ⟨[2, 1], 1, 1⟩, ⟨[1, 0], 5, 0⟩, ⟨[1, 1], 2, 2⟩], [1, 1], [1, 1]⟩ : FitProblem Rat)).get 0 0 := by
+  obtain ⟨S, h1, h2, _⟩ := glam_eq_kron_C09 exDims2 [[1, 3/2, 2], [1, 2]]
+    [([0, 0], 1), ([2, 1], 1), ([1, 0], 5), ([1, 1], 2)] [1, 1, 0, 2] [1] [1] (by simp [exDims2]) ⟨rfl, rfl⟩
+    (by
+      intro d hd
+      simp only [exDims2, List.mem_cons, List.not_mem_nil, or_false] at hd
+      rcases hd with rfl | rfl <;> rfl) rfl
+    (by
+      intro e he
+      simp only [List.mem_cons, List.not_mem_nil, or_false] at he
+      rcases he with rfl | rfl | rfl | rfl <;>
+        exact ⟨rfl, fun k hk => by
+          have : k = 0 ∨ k = 1 := by simp at hk; omega
+          rcases this with rfl | rfl <;> simp⟩)
+  exact ⟨S, h1, h2 0 (by decide) 0 (by decide)⟩
+
+/-- non-vacuity of `glam_solution_is_unique_minimiser`: the problem built from the arguments of the one-dimensional example
+is `exP`, whose normal matrix is positive definite; `c = (1,1)` solves the assembled system. -/
+example :
+    let P : FitProblem Rat :=
+      ⟨[exDim], [[1, 3/2, 2]], (([([0], (1:Rat)), ([2], 1), ([1], 5)].zip [(1:Rat), 1, 0]).map
+          fun (e, w) => ⟨e.1, e.2, w⟩).toArray,
+       (List.range 1).map (fun k => pick [(1:Rat)] k 0), (List.range 1).map (fun k => pick [1] k 0)⟩
+    PosDef P.ncoef (Mf P) ∧ ∀ i < P.ncoef, mulVec P.ncoef (Mf P) (fun _ => 1) i = rf P i :=
+  ⟨exP_posDef, exP_normal⟩
+
 end PsV
